@@ -184,11 +184,12 @@ fn check_display(case: &Case, ctx: &mut Ctx) {
             let leading: i128 = if d.s > 0 { (d.s as i128 - digits).max(0) } else { 0 };
             let trailing: i128 = if d.s < 0 { -(d.s as i128) } else { 0 };
             let want_exp = leading > lo || trailing > up;
-            let has_exp = s.contains('e') || s.contains('E');
-            ctx.check(has_exp == want_exp, "display/notation-threshold", case, || format!("Display of {} is {:?}: exponent form = {}, with {} leading / {} trailing zeros and configured thresholds {} / {}", d.tok(), s, has_exp, leading, trailing, lo, up));
-            ctx.check(s == sr, "display/value-vs-ref", case, || format!("value prints {:?}, reference prints {:?}", s, sr));
-            let back = crate::props::c05::recognise(s.as_bytes()).and_then(|(neg, dg, sc)| BigInt::parse_bytes(&dg, 10).map(|n| Dec::new(if neg { -n } else { n }, sc)));
-            ctx.check(back.as_ref().map(|x| model::eq_dec(x, &d)).unwrap_or(false), "display/value-changed", case, || format!("Display of {} is {:?}", d.tok(), s));
+            for (which, s) in [("value", &s), ("reference", &sr)] {
+                let has_exp = s.contains('e') || s.contains('E');
+                ctx.check(has_exp == want_exp, "display/notation-threshold", case, || format!("Display ({}) of {} is {:?}: exponent form = {}, with {} leading / {} trailing zeros and configured thresholds {} / {}", which, d.tok(), s, has_exp, leading, trailing, lo, up));
+                let back = crate::props::c05::recognise(s.as_bytes()).and_then(|(neg, dg, sc)| BigInt::parse_bytes(&dg, 10).map(|n| Dec::new(if neg { -n } else { n }, sc)));
+                ctx.check(back.as_ref().map(|x| model::eq_dec(x, &d)).unwrap_or(false), "display/value-changed", case, || format!("Display ({}) of {} is {:?}", which, d.tok(), s));
+            }
         }
     }
     ctx.end_case(case.hash(), !d.n.is_zero());
